@@ -273,17 +273,19 @@ URLS = ["", "u1", "u2"]
 
 
 def merge_chain(n: int, m0: int, m1: int, m2: int, u0: int, u1: int, u2: int, a0: int, a1: int, a2: int, b0: int,
-                b1: int, b2: int) -> str:
+                b1: int, b2: int, vk: int = 0) -> str:
     """
     Chains of up to three resources over keys {a, b} with symbolic int values and schema URLs: later sources override
     earlier ones key by key, the schema rule holds, and no operand is modified.
-    PRE: 2 <= n <= 3 and 0 <= m0 <= 3 and 0 <= m1 <= 3 and 0 <= m2 <= 3 and 0 <= u0 <= 2 and 0 <= u1 <= 2 and 0 <= u2 <= 2
+    PRE: 2 <= n <= 3 and 0 <= m0 <= 3 and 0 <= m1 <= 3 and 0 <= m2 <= 3 and 0 <= u0 <= 2 and 0 <= u1 <= 2 and 0 <= u2 <= 2 and 0 <= vk <= 2
     POST: _ == ""
     """
     world.begin_path()
     from deep.api.resource import Resource
-    n, m0, m1, m2, u0, u1, u2 = [world.realize(x) for x in (n, m0, m1, m2, u0, u1, u2)]
-    a0, a1, a2, b0, b1, b2 = 10, 11, 12, 20, 21, 22   # distinct concrete values: the subject is which source wins
+    n, m0, m1, m2, u0, u1, u2, vk = [world.realize(x) for x in (n, m0, m1, m2, u0, u1, u2, vk)]
+    # distinct concrete values: the subject is which source wins - also when the winning value is 'empty' ('' / 0 / False
+    # are values like any other: a later source that blanks a key does blank it)
+    a0, a1, a2, b0, b1, b2 = [(10, 11, 12, 20, 21, 22), ("x", "", "z", 5, 0, False), ("", "y", "", False, 7, 0)][vk]
     specs = [(m0, u0, a0, b0), (m1, u1, a1, b1), (m2, u2, a2, b2)][:n]
     rs, dicts = [], []
     for (m, u, a, b) in specs:
